@@ -651,6 +651,10 @@ def runLine (line : String) : String :=
     | ["repr", n, "read_be", bs] => do
         let n ← n.toNat?; let bs ← parseBytes bs
         pure (if bs.length < 8 * n then "ERR:eof" else toHex (beToNat (bs.take (8 * n))))
+    | ["repr", n, "read_be2", bs, _chunk] => do
+        let n ← n.toNat?; let bs ← parseBytes bs
+        pure (if bs.length < 16 * n then "ERR:eof"
+              else toHex (beToNat (bs.take (8 * n))) ++ " " ++ toHex (beToNat ((bs.drop (8 * n)).take (8 * n))) ++ " " ++ toString (16 * n))
     | ["repr", n, "read_le", bs] => do
         let n ← n.toNat?; let bs ← parseBytes bs
         pure (if bs.length < 8 * n then "ERR:eof" else toHex (leToNat (bs.take (8 * n))))
